@@ -33,7 +33,7 @@ func probes(w *world) {
 	fmt.Fprintf(os.Stderr, "F12 probe: 40 runs, false header committed %d, liar banned %d, silent peer banned %d, honest banned %d\n",
 		bad, liarBanned, silentBanned, honestBanned)
 
-	// suspected: the all-zero filter hash is the "unset" sentinel of
+	// (repaired, kept for counting) the all-zero filter hash was the "unset" sentinel of
 	// checkForCFHeaderMismatch, so a peer advertising it can escape the mismatch
 	// test depending on the map order.  One honest peer, one peer advertising
 	// the zero hash (and serving nothing).
